@@ -112,12 +112,23 @@ def subscribe(
         cast(Instrumentation, instrumentation).on_execution_end()
         return response_stream
 
+    # The stage has been started: it is closed as well when the operation is
+    # refused or the subscription resolver fails.
+    def _on_failure(err):
+        cast(Instrumentation, instrumentation).on_execution_end()
+        raise err
+
+    try:
+        source_stream = create_source_event_stream(
+            executor, root_type, operation, initial_value
+        )
+    except Exception:
+        instrumentation.on_execution_end()
+        raise
+
     return runtime.ensure_wrapped(
         runtime.map_value(
-            create_source_event_stream(
-                executor, root_type, operation, initial_value
-            ),
-            _on_stream_created,
+            source_stream, _on_stream_created, else_=(Exception, _on_failure),
         )
     )
 
